@@ -7,7 +7,7 @@ KERNELS = {
     "C01": [kernel_edit, kernel_split, kernel_join, kernel_compose],
     "C02": [kernel_split, kernel_join, kernel_remove, kernel_compose],
     "C03": [kernel_split, kernel_edges, kernel_join, kernel_remove, kernel_compose],
-    "C04": [kernel_edit, kernel_split, kernel_join],
+    "C04": [kernel_edit, kernel_split, kernel_join, kernel_remove],
     "C05": [kernel_functions, kernel_join, kernel_remove, kernel_auxdata, kernel_intervals],
     "C06": [kernel_split, kernel_functions, kernel_join, kernel_compose],
     "C10": [kernel_intervals],
